@@ -1,16 +1,114 @@
-"""C08: active task is the running one; scheduler clean after any outcome."""
+"""C08: active task is the running one; scheduler is clean after any outcome (histories)."""
 from vlib.spec import Cond, I, B
-from harness import core, fam
+from harness import core, fam, ctx
+from harness.fam import conc, concb
+from harness.prog import (check_history, TaskD, SEQ, Y, TASK, ITEM, WITH, TRY, SYNC, RAISE, READ, LAZY,
+                          ERRFUT, OBJ)
+from asynq import _debug as _adebug
 
 P = {"c08"}
+
+
+def canary(v):
+    return {"td": fam.tree([2, 1, 0], [0, 0, 0], [v, v + 1, v + 2]), "props": {"c01", "c03", "c04", "c08"},
+            "compare": True, "nkinds": 1, "prio": [0], "expect_flushes": 2}
+
+
+def comp_fault(sel0, sel1, g0, g1, v):
+    slots = [fam.menu_slot(sel0, 0, v), fam.menu_slot(sel1, 1, v + 1)]
+    mid = TaskD("mid", SEQ(Y(0, fam.KEEP("pre", ITEM(0, v + 7))), fam.guard(Y(4, *slots), g1), Y(0, ITEM(1, v + 5))))
+    sib = fam.chain("sib", 2, 1, v + 20)
+    td = TaskD("root", SEQ(fam.guard(Y(4, TASK(mid), TASK(sib)), g0), Y(0, ITEM(0, v + 9))))
+    return {"td": td, "props": {"c08", "c02"}, "compare": True}
+
+
+def comp_ctxraise(which, k, nest, guardmode, kk, v):
+    spec = ("rec", "X", ("resume" if which == 0 else "pause", k))
+    inner = SEQ(Y(0, ITEM(kk, v)), Y(0, ITEM(1 - kk, v + 1)), Y(0, ITEM(kk, v + 2)))
+    if nest == 0:
+        block = WITH(spec, inner)
+    elif nest == 1:
+        block = WITH(("rec", "O"), WITH(spec, inner))
+    else:
+        block = WITH(spec, WITH(("rec", "I"), inner))
+    T0 = TaskD("T0", fam.guard(block, guardmode))
+    T1 = fam.chain("T1", 3, 1, v + 10)
+    td = TaskD("root", fam.guard(Y(4, TASK(T0), TASK(T1)), 2))
+    return {"td": td, "props": {"c08"}, "compare": False}
+
+
+def comp_stack(depth, limit, v):
+    t = fam.chain("leaf", 1, 0, v)
+    for i in range(depth):
+        t = TaskD("n%d" % i, Y(0, TASK(t)))
+    old = [None]
+
+    def setup():
+        old[0] = _adebug.options.MAX_TASK_STACK_SIZE
+        _adebug.options.MAX_TASK_STACK_SIZE = limit
+        import asynq.debug as d
+        old.append(d.options.DUMP_PRE_ERROR_STATE)
+        d.options.DUMP_PRE_ERROR_STATE = False
+
+    def teardown():
+        _adebug.options.MAX_TASK_STACK_SIZE = old[0]
+        import asynq.debug as d
+        d.options.DUMP_PRE_ERROR_STATE = old[1]
+    return {"td": t, "props": {"c08"}, "compare": False, "setup": setup, "teardown": teardown}
+
+
+def mk_hist_fault(two=False):
+    def f(s0, s1, g0, g1, t0, t1, h0, h1, v):
+        c1 = comp_fault(conc(s0, fam.FAULT_MENU), conc(s1, fam.FAULT_MENU), conc(g0, 5), conc(g1, 5), v)
+        comps = [c1]
+        if two:
+            comps.append(comp_fault(conc(t0, fam.FAULT_MENU), conc(t1, fam.FAULT_MENU), conc(h0, 5), conc(h1, 5), v + 3))
+        comps.append(canary(v + 50))
+        return check_history(comps, sig=("hfault", conc(s0, 17), conc(s1, 17), conc(g0, 5), conc(g1, 5)))
+    return f
+
+
+def mk_hist_ctx(two=False):
+    def f(which, k, nest, gm, kk, which2, k2, v):
+        comps = [comp_ctxraise(conc(which, 2), 1 + conc(k, 4), conc(nest, 3), conc(gm, 5), conc(kk, 2), v)]
+        if two:
+            comps.append(comp_ctxraise(conc(which2, 2), 1 + conc(k2, 4), 0, 0, 1 - conc(kk, 2), v + 5))
+        comps.append(canary(v + 50))
+        return check_history(comps, sig=("hctx", conc(which, 2), conc(k, 4), conc(nest, 3), conc(gm, 5)))
+    return f
+
+
+def mk_hist_stack():
+    def f(depth, limit, v):
+        comps = [comp_stack(conc(depth, 6), 1 + conc(limit, 6), v), canary(v + 50)]
+        return check_history(comps, sig=("hstack", conc(depth, 6), conc(limit, 6)))
+    return f
 
 
 def conds(tier):
     q = tier == "quick"
     out = []
     out.append(Cond("reentry", core.mk_reentry(P), core.REENTRY_PARAMS, pin=3, budget=150,
-                    family="F-REENTRY", encodes=core.ENC_SCHED))
-    out.append(core.fault_cond("fault", P, [4, 6], g0modes=5, g1modes=3, pin=4, budget=300))
+                    family="F-REENTRY active task at every step and after nested calls", encodes=core.ENC_SCHED))
+    out.append(Cond("hist_fault", mk_hist_fault(False),
+                    [I("s0", 0, 16), I("s1", 0, 16), I("g0", 0, 4), I("g1", 0, 4), I("t0", 0, 0), I("t1", 0, 0),
+                     I("h0", 0, 0), I("h1", 0, 0), I("v")], pin=2, budget=200,
+                    family="F-HIST [faulty computation, canary]", encodes=core.ENC_SCHED))
+    out.append(Cond("hist_ctx", mk_hist_ctx(False),
+                    [I("which", 0, 1), I("k", 0, 3), I("nest", 0, 2), I("gm", 0, 4), I("kk", 0, 1),
+                     I("which2", 0, 0), I("k2", 0, 0), I("v")], pin=2, budget=200,
+                    family="F-HIST [context whose k-th resume/pause raises, canary]", encodes=ctx.ENC_CTX))
+    out.append(Cond("hist_stack", mk_hist_stack(), [I("depth", 0, 5), I("limit", 0, 5), I("v")], pin=1,
+                    budget=100, family="F-HIST [MAX_TASK_STACK_SIZE RuntimeError, canary]", encodes=core.ENC_SCHED))
     out.append(Cond("tree", core.mk_tree(P, 3, 2, 2), core.tree_params(3, 2, 2), pin=3, budget=120,
                     family="F-TREE(3,2,2)", encodes=core.ENC_SCHED))
+    if not q:
+        out.append(Cond("hist_fault2", mk_hist_fault(True),
+                        [I("s0", 8, 16), I("s1", 0, 16), I("g0", 0, 2), I("g1", 0, 2), I("t0", 8, 16), I("t1", 0, 7),
+                         I("h0", 0, 2), I("h1", 0, 2), I("v")], pin=3, budget=1800,
+                        family="F-HIST [faulty, faulty, canary]", encodes=core.ENC_SCHED))
+        out.append(Cond("hist_ctx2", mk_hist_ctx(True),
+                        [I("which", 0, 1), I("k", 0, 3), I("nest", 0, 2), I("gm", 0, 4), I("kk", 0, 1),
+                         I("which2", 0, 1), I("k2", 0, 3), I("v")], pin=2, budget=900,
+                        family="F-HIST [raising ctx, raising ctx, canary]", encodes=ctx.ENC_CTX))
     return out
